@@ -96,6 +96,7 @@ type Exec struct {
 	loopHavoc bool
 	constGlobals map[string]Val
 	tagFacts    []*Term
+	capSeq      int
 	callsAt     *State // state in which the `calls` designators of the function under verification are compared with a callee's
 	globFacts   []globFact // facts about constant globals of dependencies, added to the queries that mention them
 	sealedImpls map[string][]int
@@ -121,6 +122,7 @@ type retRec struct {
 }
 
 type capRec struct {
+	seq    int // order of recording: program order inside one acyclic region
 	called *Term
 	pre    *State // state right before the call (nil when ambiguous or not recorded)
 	args   []Val
